@@ -315,6 +315,63 @@ PROGRAMS = [
 ]
 
 
+# ---------------------------------------------------------------------------
+# use site: one graph per analysed unit.  In loop mode every loop is analysed in isolation (delta indices restart
+# at 0), so the verdict of a loop must not depend on tuples inserted for a sibling loop: a loop declared failing
+# in company but not alone is a collapse reported while a valid choice remains for the unit being analysed.
+# ---------------------------------------------------------------------------
+
+LOOP_POOL = [
+    "while (n > 0) { x = x * x; }", "while (n > 0) { y = z; }", "while (n > 0) { x = x + y; }",
+    "while (n > 0) { y = y + y; }", "while (n > 0) { x = y + z; y = x + x; }", "while (n > 0) { z = z * y; }",
+    "while (n > 0) { if (z > 0) { x = x + y; } else { y = x + x; } }", "while (n > 0) { y = x * z; z = y + y; }",
+    "for (n = 0; n < z; n++) { x = x + y; }", "do { x = y + y; y = x + z; } while (n > 0);",
+    "while (n > 0) { while (z > 0) { x = x + y; } y = y + x; }", "while (n > 0) { x = z; z = y; }",
+]
+
+
+def loop_summaries(loops):
+    import pycparser
+    from pymwp import LoopAnalysis
+    src = "void f(int x, int y, int z, int n) { %s }" % " ".join(loops)
+    res = vlib.with_timeout(lambda: LoopAnalysis.run(pycparser.CParser().parse(src), strict=False), 30)
+    return src, [(lp.n_vars, lp.n_bounded, sorted((k, str(v.bound)) for k, v in lp.variables.items()))
+                 for lp in res.get_func("f").loops]
+
+
+def loop_isolation(ctx, seqs=None):
+    rng, failing, n = ctx.rng, [], 0
+    alone = {}
+    for code in LOOP_POOL:
+        try:
+            alone[code] = loop_summaries([code])[1]
+        except Exception as e:
+            failing.append({"what": f"raise: LoopAnalysis.run raised {vlib.exc_sig(e)[0]}", "sig": ["C11", "loop-mode-raise"],
+                            "input": {"loops": [code]}, "expected": "no exception", "observed": vlib.exc_sig(e)})
+    if seqs is None:
+        seqs = [list(p) for p in itertools.permutations(LOOP_POOL[:6], 2)]
+        seqs += [[rng.choice(LOOP_POOL) for _ in range(rng.randint(2, 4))] for _ in range(ctx.n(60, 600))]
+    for seq in seqs:
+        if any(c not in alone for c in seq):
+            continue
+        n += 1
+        try:
+            src, got = loop_summaries(seq)
+        except Exception as e:
+            failing.append({"what": f"raise: LoopAnalysis.run raised {vlib.exc_sig(e)[0]}", "sig": ["C11", "loop-mode-raise"],
+                            "input": {"loops": seq}, "expected": "no exception", "observed": vlib.exc_sig(e)})
+            continue
+        exp = [x for c in seq for x in alone[c]]
+        if got != exp:
+            k = next((i for i, (a, b) in enumerate(zip(got, exp)) if a != b), None)
+            failing.append({"what": "loop-verdict-depends-on-siblings: in loop mode a loop's result differs from the result of the same "
+                                    f"loop analysed alone (loop {k} of {len(seq)})", "sig": ["C11", "loop-verdict-depends-on-siblings"],
+                            "input": {"loops": seq, "program": src}, "expected": exp, "observed": got})
+            if len(failing) >= 3:
+                break
+    return failing, n
+
+
 def recorded_histories(DG, Mono):
     """Histories (one per DeltaGraph instance) produced by real analyses; methods wrapped from here."""
     import pycparser
@@ -671,6 +728,9 @@ def run(ctx):
     for src, ex in rec_err:
         failing.append({"what": f"raise: {ex[0]} in {ex[1]} during Analysis.run(fin=True)", "sig": ["C11", "raise"] + ex,
                         "input": {"program": src}, "expected": "no exception", "observed": ex})
+    iso_fail, iso_n = loop_isolation(ctx)
+    failing += iso_fail
+    ev += iso_n
     t1 = time.time()
     mism, cinfo = [], {}
     if ctx.coq_ok:
@@ -687,7 +747,7 @@ def run(ctx):
              "distribution": dist,
              "share_collapsed_overall": round(sum(d["collapsed"] for d in dist.values()) / max(1, tot_h), 3),
              "share_fusion_after_collapse_overall": round(sum(d["fusion_after_collapse"] for d in dist.values()) / max(1, tot_h), 3),
-             "recorded_programs": len(PROGRAMS),
+             "recorded_programs": len(PROGRAMS), "loop_isolation_sequences": iso_n,
              "out_of_domain": out_of_domain(DG, Mono),
              "samples": samples, "search_wall_s": round(t1 - t0, 1), "correspondence_wall_s": round(time.time() - t1, 1)}
     stats.update(cinfo)
@@ -701,6 +761,9 @@ def run(ctx):
 def replay(ctx, data):
     DG, Mono = get_classes()
     inp = data.get("input", data)
+    if "loops" in inp:
+        f, _ = loop_isolation(ctx, [inp["loops"]])
+        return f[0] if f else None
     if "program" in inp:
         import pycparser
         from pymwp import Analysis, Result
